@@ -1,2 +1,164 @@
-/-! Line-protocol driver stub (to be filled in): reads stdin, echoes nothing. -/
-def main : IO Unit := pure ()
+import SMV.Model.Decl
+/-!
+# Line-protocol driver for the declaration model (C15)
+
+```
+scn decl <name>
+class                      -- starts a class; each further `class` line is a subclass of the previous one
+<statement>                -- one per line, prefix token notation, all names are numbers
+end
+```
+statements:
+`state <sdecl>` | `sdict <n> <sdecl>*` | `senum <n> (<name> <value>)* <initial> <list finals>` |
+`assign <attr> <texpr>` | `bare <texpr>` | `eventof <attr> <texpr>` | `ph <attr>` |
+`deco <fname> <cb> <texpr>`
+sdecl  = `<name> <value|-> <initial> <final> <list enter> <list exit>`; list = `<n> x1 … xn`
+texpr  = `to <s> <list> <kw>` | `from <t> <list> <kw>` | `toit <s> <kw>` | `fromit <s> <kw>` |
+         `any <t> <kw>` | `or <texpr> <texpr>` | `ref <attr>`
+kw     = `kw <n> <item>* <internal> <validators> <cond> <unless> <before> <on> <after>` (six lists)
+item   = `s <list>` | `o <id>` | `p <var>`
+
+Output: the elaborated class in canonical form (`err`, `state`, `t` lines per registered state in
+store order, `events`, `allowed`).
+-/
+open SMV SMV.Decl
+
+namespace DrvDecl
+
+abbrev P := StateM (List String)
+
+def tok : P String := do
+  match (← get) with
+  | [] => pure ""
+  | t :: ts => set ts; pure t
+
+def nat : P Nat := do pure ((← tok).toNat?.getD 0)
+def optNat : P (Option Nat) := do pure (← tok).toNat?
+def bool : P Bool := do pure ((← tok) == "1")
+
+def rep {α} (p : P α) : Nat → P (List α)
+  | 0 => pure []
+  | n + 1 => do
+    let a ← p
+    let as ← rep p n
+    pure (a :: as)
+
+def list : P (List Nat) := do rep nat (← nat)
+
+def item : P EvItem := do
+  match (← tok) with
+  | "s" => pure (.str (← list))
+  | "o" => pure (.obj (← nat))
+  | _ => pure (.ph (← nat))
+
+def kw : P Kw := do
+  let _ ← tok
+  let items ← rep item (← nat)
+  let internal ← bool
+  let validators ← list
+  let cond ← list
+  let unless_ ← list
+  let before ← list
+  let on ← list
+  let after ← list
+  pure { event := items, internal, validators, cond, unless_, before, on, after }
+
+partial def texpr : P TExpr := do
+  match (← tok) with
+  | "to" => do let s ← nat; let ts ← list; pure (.to s ts (← kw))
+  | "from" => do let t ← nat; let ss ← list; pure (.from_ t ss (← kw))
+  | "toit" => do let s ← nat; pure (.toItself s (← kw))
+  | "fromit" => do let s ← nat; pure (.fromItself s (← kw))
+  | "any" => do let t ← nat; pure (.fromAny t (← kw))
+  | "or" => do let a ← texpr; let b ← texpr; pure (.or a b)
+  | _ => do pure (.ref (← nat))
+
+def sdecl : P SDecl := do
+  let name ← nat
+  let value ← optNat
+  let initial ← bool
+  let final ← bool
+  let enter ← list
+  let exit ← list
+  pure { name, value, initial, final, enter, exit }
+
+def member : P (Name × Val) := do
+  let n ← nat
+  let v ← nat
+  pure (n, v)
+
+def stmt : P (Option Stmt) := do
+  match (← tok) with
+  | "state" => do pure (some (.state (← sdecl)))
+  | "sdict" => do pure (some (.statesDict (← rep sdecl (← nat))))
+  | "senum" => do
+    let ms ← rep member (← nat)
+    let i ← nat
+    pure (some (.statesEnum ms i (← list)))
+  | "assign" => do let a ← nat; pure (some (.assign a (← texpr)))
+  | "bare" => do pure (some (.bare (← texpr)))
+  | "eventof" => do let a ← nat; pure (some (.eventOf a (← texpr)))
+  | "ph" => do pure (some (.placeholder (← nat)))
+  | "deco" => do let f ← nat; let cb ← nat; pure (some (.decorated (← texpr) f cb))
+  | _ => pure none
+
+def insertSorted (a : Nat) : List Nat → List Nat
+  | [] => [a]
+  | b :: l => if a ≤ b then a :: b :: l else b :: insertSorted a l
+
+def sortN (l : List Nat) : List Nat := l.foldr insertSorted []
+
+def showL (l : List Nat) : String :=
+  if l.isEmpty then "-" else ",".intercalate ((sortN l).map toString)
+
+def showC (l : List (CbId × Bool)) : String :=
+  showL (l.map fun (c, b) => 2 * c + (if b then 1 else 0))
+
+def b01 (b : Bool) : String := if b then "1" else "0"
+
+def render (c : Cls) : List String :=
+  if c.err then ["err 1"] else
+  ["err 0"] ++
+  c.states.map (fun s =>
+    let v := match s.value with | some v => toString v | none => "-"
+    s!"state {s.name} {v} {b01 s.initial} {b01 s.final} en={showL s.enter} ex={showL s.exit}") ++
+  c.states.flatMap (fun s => (outOf c s.name).map fun t =>
+    s!"t {s.name} {t.target} {b01 t.internal} ev={showL (finalEvents t)} v={showL t.validators} c={showC t.conds} b={showL t.before} o={showL t.on} a={showL t.after}") ++
+  [s!"events {showL c.events}"] ++
+  c.states.map (fun s => s!"allowed {s.name} {showL (allowed c s.name)}")
+
+structure Scn where
+  name : String
+  classes : List (List Stmt) := []   -- reversed, statements reversed
+deriving Inhabited
+
+def addLine (s : Scn) (toks : List String) : Scn :=
+  match toks with
+  | ["class"] => { s with classes := [] :: s.classes }
+  | _ =>
+    match (stmt.run toks).1, s.classes with
+    | some st, cur :: rest => { s with classes := (st :: cur) :: rest }
+    | _, _ => s
+
+def splitWs (s : String) : List String := (s.splitOn " ").filter (· ≠ "")
+
+partial def loop (h : IO.FS.Stream) (cur : Option Scn) : IO Unit := do
+  let line ← h.getLine
+  if line.isEmpty then return ()
+  let toks := splitWs (line.trimAscii.toString)
+  match toks, cur with
+  | "scn" :: _ :: name :: _, _ => loop h (some { name := name })
+  | ["end"], some s =>
+    IO.println s!"scn {s.name}"
+    let prog := (s.classes.map List.reverse).reverse
+    for l in render (elabProg prog) do IO.println l
+    IO.println "end"
+    loop h none
+  | [], c => loop h c
+  | t, some s => loop h (some (addLine s t))
+  | _, none => loop h none
+
+end DrvDecl
+
+def main : IO Unit := do
+  DrvDecl.loop (← IO.getStdin) none
